@@ -333,9 +333,9 @@ Lemma fs_text_abs : forall fs cwd cwd' p, is_abs p = true -> fs_text fs cwd p = 
 Proof. intros * H. unfold fs_text, fs_open, abs_path. now rewrite H. Qed.
 
 Lemma readq_cwd_free : forall w fs cwd cwd' top fuel,
-  is_abs top = true -> read_all w fs cwd top fuel = read_all w fs cwd' top fuel.
+  is_abs top = true -> read_all_u w fs cwd top fuel = read_all_u w fs cwd' top fuel.
 Proof.
-  intros * H. unfold read_all. apply read_all_ext.
+  intros * H. unfold read_all_u. apply read_all_ext.
   - now apply fs_text_abs.
   - intros name. apply fs_text_abs. apply path_join_abs. now apply dirname_abs.
 Qed.
@@ -1320,10 +1320,10 @@ Proof.
 Qed.
 
 Lemma ex_text_result :
-  ycards (ra_yields (read_all 128 ex_fs "/somewhere/else" ex_top 4))
+  ycards (ra_yields (read_all_u 128 ex_fs "/somewhere/else" ex_top 4))
   = [ (0, ["1 0 -1"]); (1, ["1 so 5"]); (2, ["mode n"]); (2, ["nps 10"]);
       (0, ["2 0 1"]); (2, ["sdef"]); (2, ["m1 1001.80c 1"]); (2, ["ctme 5"]) ]
-  /\ ra_error (read_all 128 ex_fs "/somewhere/else" ex_top 4) = None.
+  /\ ra_error (read_all_u 128 ex_fs "/somewhere/else" ex_top 4) = None.
 Proof. split; vm_compute; reflexivity. Qed.
 
 (* a missing target *)
@@ -1385,7 +1385,7 @@ Definition blank_fs : fsys :=
 
 Lemma block_refuted :
   exists w fs cwd top fuel it p i,
-    ra_error (read_all w fs cwd top fuel) = None /\
+    ra_error (read_all_u w fs cwd top fuel) = None /\
     snd (fst (scan_file w false 0 top (f_rest (read_front_matters (file_lines (snd (List.hd ("", "") fs))))))) = [it] /\
     In (YInput p i) (item_yields w (fs_text fs cwd) (dirname top) it) /\
     fst (fst it) = 2 /\ i_bt i = 1 /\ i_lines i = ["mode n"].
@@ -1426,9 +1426,9 @@ Definition cy_fs : fsys :=
     ("/p/cy2.i", cat [L "nps 10"; L "read file=cy2.i"]) ].
 
 Lemma cycle_example : forall cwd fuel,
-  ra_error (read_all 128 cy_fs cwd "/p/top.i" fuel) = Some E_OutOfFuel.
+  ra_error (read_all_u 128 cy_fs cwd "/p/top.i" fuel) = Some E_OutOfFuel.
 Proof.
-  intros cwd fuel. unfold read_all.
+  intros cwd fuel. unfold read_all_u.
   assert (Hft : forall name, fs_text cy_fs cwd (path_join "/p" name) = fs_text cy_fs "/" (path_join "/p" name)).
   { intros name. apply fs_text_abs. now apply path_join_abs. }
   rewrite (read_all_ext (fs_text cy_fs cwd) (fs_text cy_fs "/") 128 "/p/top.i" fuel);
@@ -1447,7 +1447,7 @@ Proof.
 Qed.
 
 (* ------------------------------------------------------------------ *)
-(* proposed repair C20-1 (cycle guard): unless it reports a cycle, the guarded loop is the loop *)
+(* the drain loop of the code (cycle test, commit 2963569): unless it reports a cycle it is the loop above *)
 Lemma drain_g_transparent : forall ft cwd dir w fuel lin q,
   snd (drain_g fuel ft cwd dir w lin q) <> Some E_Cycle ->
   drain_g fuel ft cwd dir w lin q = drain fuel ft dir w q.
@@ -1466,28 +1466,19 @@ Proof.
       cbn [snd] in *. rewrite <- IH by exact H. reflexivity.
 Qed.
 
-Lemma read_all_g_transparent : forall w fs cwd top fuel,
-  ra_error (read_all_g w fs cwd top fuel) <> Some E_Cycle ->
-  read_all_g w fs cwd top fuel = read_all w fs cwd top fuel.
+Lemma gft_transparent : forall w ft cwd top fuel,
+  ra_error (read_all_gft w ft cwd top fuel) <> Some E_Cycle ->
+  read_all_gft w ft cwd top fuel = read_all_ft w ft top fuel.
 Proof.
-  intros w fs cwd top fuel H. unfold read_all_g, read_all, read_all_ft in *. cbv zeta in *.
-  destruct (fs_text fs cwd top) as [ls|]; [|reflexivity].
+  intros w ft cwd top fuel H. unfold read_all_gft, read_all_ft in *. cbv zeta in *.
+  destruct (ft top) as [ls|]; [|reflexivity].
   destruct (scan_file w false 0 top (f_rest (read_front_matters ls))) as [[ys qs] [e|]]; [reflexivity|].
-  match goal with |- context [drain_g fuel ?ft cwd ?d w ?l qs] =>
+  match goal with |- context [drain_g fuel ft cwd ?d w ?l qs] =>
     assert (T := drain_g_transparent ft cwd d w fuel l qs); destruct (drain_g fuel ft cwd d w l qs) as [ys' e'] end.
   cbn [ra_error snd] in *. rewrite <- T by exact H. reflexivity.
 Qed.
 
-(* with the guard the cycle of cy_fs is reported after the file was read once *)
-Lemma cycle_guarded_example :
-  ra_error (read_all_g 128 cy_fs "/" "/p/top.i" 3) = Some E_Cycle /\
-  ycards (ra_yields (read_all_g 128 cy_fs "/" "/p/top.i" 3)) = [(0, ["1 0 -1"]); (1, ["1 so 5"]); (2, ["nps 10"])].
-Proof. split; vm_compute; reflexivity. Qed.
-
-(* a file read twice through two read cards, and a path with "..": no cycle, nothing reported *)
-Lemma guard_quiet_example :
-  let fs := [ ("/p/top.i", cat [L "t"; L "1 0 -1"; L ""; L "1 so 5"; L ""; L "read file=a.i"; L "read file=sub/../a.i"]);
-              ("/p/a.i", cat [L "c only a comment"]); ("/p/sub/../a.i", cat [L "c only a comment"]) ] in
-  ra_error (read_all_g 128 fs "/" "/p/top.i" 3) = None /\
-  read_all_g 128 fs "/" "/p/top.i" 3 = read_all 128 fs "/" "/p/top.i" 3.
-Proof. split; vm_compute; reflexivity. Qed.
+Lemma read_all_transparent : forall w fs cwd top fuel,
+  ra_error (read_all w fs cwd top fuel) <> Some E_Cycle ->
+  read_all w fs cwd top fuel = read_all_u w fs cwd top fuel.
+Proof. intros. unfold read_all, read_all_u. now apply gft_transparent. Qed.
